@@ -65,8 +65,22 @@ def open_tok(op):
     return "f1(" if op.narg == 1 else "f2("
 
 
+def model_tok(cls):
+    """model token of an operator CLASS by lineage (shape mode: any subclass of a default operator), or None"""
+    from scinumtools.solver import operators as O
+    if issubclass(cls, O.OperatorPar):
+        return open_tok(cls)
+    for base, tok in ((O.OperatorPow, "**"), (O.OperatorMul, "*"), (O.OperatorTruediv, "/"), (O.OperatorAdd, "+"), (O.OperatorSub, "-"),
+                      (O.OperatorEq, "=="), (O.OperatorNe, "!="), (O.OperatorLe, "<="), (O.OperatorGe, ">="), (O.OperatorLt, "<"),
+                      (O.OperatorGt, ">"), (O.OperatorNot, "!"), (O.OperatorAnd, "&&"), (O.OperatorOr, "||")):
+        if issubclass(cls, base):
+            return tok
+    return None
+
+
 class Tracer:
-    def __init__(self, atom_pred=None):
+    def __init__(self, atom_pred=None, shape=False):
+        self.shape = shape
         self.traces = {}          # tid -> list of events
         self.meta = {}            # tid -> info
         self._ids = {}
@@ -83,7 +97,11 @@ class Tracer:
         if isinstance(x, OperatorBase):
             if x.args is not None:
                 return {"k": "f", "s": open_tok(x), "tr": [], "a": [self.item(a) for a in x.args]}
+            if self.shape:
+                return {"k": "o", "s": model_tok(type(x)) or "?" + x.symbol, "tr": [], "a": []}
             return {"k": "o", "s": x.symbol, "tr": [], "a": []}
+        if self.shape:
+            return {"k": "t", "s": "", "tr": ["*"], "a": []}       # every other object is an atom of unknown value
         if self.atom_pred(x):
             v = x.value
             if isinstance(v, tuple):
@@ -127,8 +145,13 @@ def installed(tracer):
         t = tracer.tid(self)
         self.tokens._verif_tid = t
         self.tokens._verif_phase = "tok"
-        tracer.meta.setdefault(t, {"steps": [[list(s["operators"]), s["otype"].name] for s in self.steps],
-                                   "ops": list(self.operators.keys())})
+        if t not in tracer.meta:
+            toks = {k: model_tok(c) for k, c in self.operators.items()}
+            from scinumtools.solver.atom import AtomBase
+            tracer.meta[t] = {"ops": sorted(x for x in toks.values() if x),
+                              "steps": [[sorted({toks[o] for o in s["operators"] if o in toks and toks[o]}), s["otype"].name] for s in self.steps],
+                              "supported": all(toks.values()) and all(o in toks or True for s in self.steps for o in s["operators"]),
+                              "lenient": self.tokens.atom is AtomBase}
         pre = tracer.lists(self.tokens)
         tracer.emit(self.tokens, "begin", inp=list(_inp) if _inp is not None else ["#unknown"],
                     l=pre["l"], r=pre["r"])
@@ -162,7 +185,7 @@ def installed(tracer):
         if getattr(self, "_verif_phase", None) == "tok":
             tracer.emit(self, "tokend", **tracer.lists(self))
         self._verif_phase = "steps"
-        tracer.emit(self, "step", ops=sorted({open_tok(o) if hasattr(o, "narg") else o.symbol for o in operators}),
+        tracer.emit(self, "step", ops=sorted({(model_tok(o) or "?") if tracer.shape else (open_tok(o) if hasattr(o, "narg") else o.symbol) for o in operators}),
                     otype=otype.name)
         orig_operate(self, operators, otype)
         tracer.emit(self, "stepend", **tracer.lists(self))
@@ -172,7 +195,7 @@ def installed(tracer):
 
     def put_left(self, token):
         orig_put_left(self, token)
-        if tracer.depth_op == 0 and getattr(self, "_verif_phase", None) == "steps":
+        if getattr(self, "_verif_depth", 0) == 0 and getattr(self, "_verif_phase", None) == "steps":
             tracer.emit(self, "disp", err=False, **tracer.lists(self))     # the else-branch of operate
     patch(T.Tokens, "put_left", put_left)
 
@@ -180,15 +203,16 @@ def installed(tracer):
         orig = cls.__dict__[name]
 
         def w(self, tokens):
-            tracer.depth_op += 1
+            # depth is kept per Tokens object: an operator of one solver may run a whole other solver inside
+            tokens._verif_depth = getattr(tokens, "_verif_depth", 0) + 1
             err = True
             try:
                 r = orig(self, tokens)
                 err = False
                 return r
             finally:
-                tracer.depth_op -= 1
-                if tracer.depth_op == 0:
+                tokens._verif_depth -= 1
+                if tokens._verif_depth == 0:
                     tracer.emit(tokens, "disp", err=err, **tracer.lists(tokens))
         patch(cls, name, w)
 
